@@ -229,7 +229,9 @@ def captureLiteral {β} (T : Tables) (urlOk : List Nat → Bool) (e : End) (inp 
             | c2 :: r2 =>
               if c2 ≠ 0x3c then .err .syntax
               else match captureIRI T urlOk e r2 with
-                | .ok dt r => .ok (.lit lex dt none) r
+                | .ok dt r =>
+                  -- an explicit rdf:langString datatype would give a tagged string without a tag
+                  if dt = rdfLangString then .err .syntax else .ok (.lit lex dt none) r
                 | .err x => .err x
       else .ok (.lit lex xsdString none) (c :: rest')
 
@@ -337,10 +339,22 @@ def toEOL (T : Tables) (e : End) : Bool → List Nat → EolRes
     else if isSpace T c then toEOL T e false rest
     else .fail .syntax
 
+/-- `skipToStatement`: white space and comments before a statement; `none` = the input ended there
+    (the only place where an end of input is a clean end of the document). -/
+def skipToStmt (T : Tables) : Bool → List Nat → Option (List Nat)
+  | _, [] => none
+  | true, c :: rest => if c = 0x0a then skipToStmt T false rest else skipToStmt T true rest
+  | false, c :: rest =>
+    if c = 0x23 then skipToStmt T true rest
+    else if isSpace T c then skipToStmt T false rest
+    else some (c :: rest)
+
 /-- The statement part of `Next()` (label QUAD_START onwards). -/
 def statement (T : Tables) (urlOk : List Nat → Bool) (e : End) (quads : Bool) (inp : List Nat) : Step :=
-  match captureTerm T urlOk e posSubject false inp with
-  | .err .eof => .done
+  match skipToStmt T false inp with
+  | none => (match e with | .eof => .done | .ioerr => .fail .io)
+  | some inp' =>
+  match captureTerm T urlOk e posSubject false inp' with
   | .err x => .fail x
   | .ok s r1 =>
     match captureTerm T urlOk e posPredicate false r1 with
@@ -397,5 +411,35 @@ def runFuel (T : Tables) (urlOk : List Nat → Bool) (e : End) (quads : Bool) :
 def run (T : Tables) (urlOk : List Nat → Bool) (e : End) (quads : Bool) (inp : List Nat) :
     List (Quad (List Nat)) × Verdict :=
   runFuel T urlOk e quads (inp.length + 1) false inp
+
+/-! ## The decoder object (`Next` / `Err` / `Quad` as the API exposes them) -/
+
+/-- Observable state of a `Decoder`: unread input, the current statement (`currentQuad.Subject != nil`
+    is `cur.isSome`), the latched error. -/
+structure Dec where
+  inp : List Nat
+  cur : Option (Quad (List Nat))
+  err : Option EClass
+  deriving Repr
+
+def Dec.init (inp : List Nat) : Dec := ⟨inp, none, none⟩
+
+/-- One call of `Next()`: new state and the returned Boolean. -/
+def Dec.next (T : Tables) (urlOk : List Nat → Bool) (e : End) (quads : Bool) (d : Dec) : Dec × Bool :=
+  match d.err with
+  | some _ => (d, false)
+  | none =>
+    match NQ.next T urlOk e quads d.cur.isSome d.inp with
+    | .quad q rest => (⟨rest, some q, none⟩, true)
+    | .done => (⟨[], none, none⟩, false)          -- the reader is at EOF and stays there
+    | .fail x => (⟨[], d.cur, some x⟩, false)
+
+/-- `n` further calls of `Next()`. -/
+def Dec.nextN (T : Tables) (urlOk : List Nat → Bool) (e : End) (quads : Bool) : Nat → Dec → Dec × Bool
+  | 0, d => Dec.next T urlOk e quads d
+  | n + 1, d => Dec.nextN T urlOk e quads n (Dec.next T urlOk e quads d).1
+
+/-- Only white space and comments (what may follow the last statement). -/
+def allBlank (T : Tables) (s : List Nat) : Bool := (skipToStmt T false s).isNone
 
 end RdfModel.NQ
